@@ -1628,6 +1628,9 @@ class SemanticAnalyzer(
                 deleted_items.append(i + 1)
         for i in reversed(deleted_items):
             del items[i]
+            if defn.setter_index is not None and i < defn.setter_index:
+                # Keep pointing at the setter after an invalid item before it is dropped.
+                defn.setter_index -= 1
 
         for item in items[1:]:
             if isinstance(item, Decorator):
